@@ -95,10 +95,10 @@ theorem runEnter_ok {s : St} {ps1 bl : Bytes} {nd : Nat} {tx : Bytes} (line W : 
 
 /-- **`terminate0()`** when the command has consumed everything typed and exits with status 0: the
     script holds just the prompt. -/
-theorem terminate0_ok {s : St} {ps1 bl : Bytes} {nd : Nat} {tx since : Bytes} (px : Proxy) (a2 : List Bytes)
-    (hss : SS s ps1 bl [promptReg nd ps1 since] (nd + 1) ps1 tx) (hpx : px.did = nd) (hbl : BlOk bl)
+theorem terminate0_ok {s : St} {ps1 bl : Bytes} {nd nd' : Nat} {tx since : Bytes} (px : Proxy) (a2 : List Bytes)
+    (hss : SS s ps1 bl [promptReg nd ps1 since] nd' ps1 tx) (hpx : px.did = nd) (hbl : BlOk bl)
     (hp : PromptOk ps1) (ha2 : a2.flatten = respStatus false ps1 0) (hn2 : ∀ p ∈ a2, p ≠ []) :
-    ∃ s', terminate0 px a2 s = (.ok [], s') ∧ SS s' ps1 bl [] (nd + 1) [] (tx ++ (echoStatusLine ++ [13])) := by
+    ∃ s', terminate0 px a2 s = (.ok [], s') ∧ SS s' ps1 bl [] nd' [] (tx ++ (echoStatusLine ++ [13])) := by
   have hss1 := ss_deathExit px.did hss
   have hfil : [promptReg nd ps1 since].filter (fun r => r.id != px.did) = [] := by
     simp [promptReg, hpx]
